@@ -19,10 +19,12 @@ Lemma bfacts_parts :
   /\ existsb (fun g => rejects_all_neg g NumRight) (b_hdr_right_g F) = true
   /\ covers_strict (b_elem_left_g F) NumLeft = true /\ covers_strict (b_elem_right_g F) NumRight = true
   /\ index_shape_ok (b_elem_index F) = true /\ index_shape_ok (b_matrix_index F) = true
-  /\ b_arg_left F = KRightId /\ b_arg_right F = KLeftId.
+  /\ b_arg_left F = KRightId /\ b_arg_right F = KLeftId
+  /\ b_index_checked F = true
+  /\ (forall n, fires (b_index_len F) 0 0 n = false -> n <= 127).
 Proof.
   pose proof HF as H. unfold bfacts_ok in H.
-  do 15 (apply andb_true_iff in H; let H' := fresh "HB" in destruct H as [H H']).
+  do 17 (apply andb_true_iff in H; let H' := fresh "HB" in destruct H as [H H']).
   repeat split; try assumption.
   - match goal with Hx : context [b_indexed F] |- _ => rename Hx into Hi end.
     destruct (b_indexed F) as [[|] [| | | | |] [z| |]]; try discriminate. destruct z; try discriminate. reflexivity.
@@ -38,6 +40,13 @@ Proof.
   - match goal with Hx : negb (b_empty_panics F) = true |- _ => apply negb_true_iff in Hx; exact Hx end.
   - match goal with Hx : idkind_eqb (b_arg_left F) KRightId = true |- _ => destruct (b_arg_left F); [discriminate|reflexivity] end.
   - match goal with Hx : idkind_eqb (b_arg_right F) KLeftId = true |- _ => destruct (b_arg_right F); [reflexivity|discriminate] end.
+  - match goal with Hx : context [b_index_len F] |- _ => rename Hx into Hl end.
+    intros n Hn.
+    destruct (b_index_len F) as [[|] [| | | | |] [c| |]]; try discriminate; unfold fires in Hn; cbn in Hn.
+    + apply Z.leb_le in Hl. unfold Z.gtb in Hn. destruct (n ?= c) eqn:E; try discriminate.
+      * apply Z.compare_eq in E. lia.
+      * rewrite Z.compare_lt_iff in E. lia.
+    + apply Z.leb_le in Hl. unfold Z.geb in Hn. destruct (n ?= c) eqn:E; try discriminate. rewrite Z.compare_lt_iff in E. lia.
 Qed.
 
 Definition conn_wf (c : conn) : Prop :=
@@ -183,7 +192,7 @@ Proof.
   pose proof (num16_range _ _ El) as Rl. pose proof (num16_range _ _ Er) as Rr. pose proof (num16_range _ _ Ec) as Rc.
   destruct (parse_wid_list_sound _ _ Ea) as [La Na]. destruct (parse_wid_list_sound _ _ Eb) as [Lb Nb].
   destruct (parse_wid_list_sound _ _ Ew) as [Lw Nw].
-  assert (forall d, entry_limits_ok (mkEntry l rr c d sa sb ws (r_splits_concat r) (r_surface_nul r)) = true) as Lim.
+  assert (forall d, entry_limits_ok (mkEntry l rr c d sa sb ws (r_splits_concat r) (r_surface_nul r) (r_surface r)) = true) as Lim.
   { intros d. unfold entry_limits_ok. cbn [e_split_a e_split_b e_wstruct e_cost].
     repeat (apply andb_true_iff; split); apply Z.leb_le; lia. }
   destruct (r_dic_form r) as [w|].
@@ -270,7 +279,8 @@ Proof.
               match parse_records F (i_recs inp) with
               | Some es =>
                   if forallb (entry_ok F nl nr (if user then nsys else Z.of_nat (List.length es)) (if user then Z.of_nat (List.length es) else 0)) es
-                  then if existsb (indexed F) es
+                  then if index_err F es then Err else
+                       if existsb (indexed F) es
                        then if existsb (fun e => indexed F e && e_surface_nul e) es then Panic else Ok (mkDict nl nr st user nsys es)
                        else if b_empty_trie_err F then Err else Panic
                   else Err
@@ -281,7 +291,8 @@ Proof.
           end <> Panic) as G.
   { intros X HX. destruct X as [[[[[nl nr] st] user] nsys]| |]; [|discriminate|exfalso; apply HX; reflexivity].
     destruct (parse_records F (i_recs inp)) as [es|] eqn:Ep; [|discriminate].
-    destruct (forallb _ es); [|discriminate]. destruct (existsb (indexed F) es); [|rewrite Et; discriminate].
+    destruct (forallb _ es); [|discriminate]. destruct (index_err F es); [discriminate|].
+    destruct (existsb (indexed F) es); [|rewrite Et; discriminate].
     destruct (parse_records_sound _ _ Ep) as [Pe _]. rewrite (no_nul_indexed es Pe). discriminate. }
   apply G. destruct (i_base inp) as [m|a b n]; [|discriminate].
   pose proof (conn_read_sound m) as H. destruct (conn_read F m) as [c| |]; [discriminate|discriminate|contradiction].
@@ -304,13 +315,15 @@ Proof.
     - pose proof (conn_read_sound m) as C. destruct (conn_read F m) as [c| |]; try discriminate.
       destruct C as (C1 & C2 & C3).
       destruct (parse_records F (i_recs inp)) as [es|] eqn:Ep; [|discriminate].
-      destruct (forallb _ es) eqn:Ev; [|discriminate]. destruct (existsb (indexed F) es) eqn:Ex; [|destruct (b_empty_trie_err F); discriminate].
+      destruct (forallb _ es) eqn:Ev; [|discriminate]. destruct (index_err F es); [discriminate|].
+      destruct (existsb (indexed F) es) eqn:Ex; [|destruct (b_empty_trie_err F); discriminate].
       destruct (existsb (fun e => indexed F e && e_surface_nul e) es); [discriminate|].
       inversion H; subst. exists (c_nl c), (c_nr c), (c_stores c), false, 0, es.
       split; [exact C1|split; [exact C2|split; [exact C3|split; [discriminate|split; [first [reflexivity|exact Ep]|split; [exact Ev|split; [exact Ex|reflexivity]]]]]]].
     - destruct Wf as (Wa & Wb & Wn).
       destruct (parse_records F (i_recs inp)) as [es|] eqn:Ep; [|discriminate].
-      destruct (forallb _ es) eqn:Ev; [|discriminate]. destruct (existsb (indexed F) es) eqn:Ex; [|destruct (b_empty_trie_err F); discriminate].
+      destruct (forallb _ es) eqn:Ev; [|discriminate]. destruct (index_err F es); [discriminate|].
+      destruct (existsb (indexed F) es) eqn:Ex; [|destruct (b_empty_trie_err F); discriminate].
       destruct (existsb (fun e => indexed F e && e_surface_nul e) es); [discriminate|].
       inversion H; subst. exists a, b, [], true, n, es.
       split; [exact Wa|split; [exact Wb|split; [intros s0 []|split; [intros _; exact Wn|split; [first [reflexivity|exact Ep]|split; [exact Ev|split; [exact Ex|reflexivity]]]]]]]. }
@@ -348,7 +361,7 @@ Theorem validated_ids_index_safe : forall inp d a b, input_wf inp -> build_with 
   let i := iexp_eval (b_matrix_index F) (entry_id (b_arg_left F) a) (entry_id (b_arg_right F) b) (d_nl d) (d_nr d) in
   0 <= entry_id (b_arg_left F) a < d_nl d /\ 0 <= entry_id (b_arg_right F) b < d_nr d /\ 0 <= i < d_nl d * d_nr d.
 Proof.
-  intros inp d a b Wf H Ha Hb Ia Ib. destruct bfacts_parts as (_ & _ & _ & _ & _ & _ & _ & _ & _ & _ & _ & _ & _ & Im & EL & ER).
+  intros inp d a b Wf H Ha Hb Ia Ib. destruct bfacts_parts as (_ & _ & _ & _ & _ & _ & _ & _ & _ & _ & _ & _ & _ & Im & EL & ER & _).
   destruct (build_valid inp d Wf H) as (V & _). unfold dict_valid in V. rewrite forallb_forall in V.
   pose proof (V a Ha) as Va. pose proof (V b Hb) as Vb.
   apply andb_true_iff in Va as [Va _]. apply andb_true_iff in Va as [Va _].
@@ -384,6 +397,50 @@ Proof.
   assert (forall (A : Type) (f : A -> bool) l, forallb f l = forallb (fun b : bool => b) (map f l)) as FM.
   { intros A f l. induction l as [|x t IH]; cbn; [reflexivity|rewrite IH; reflexivity]. }
   rewrite FM, M, <- FM. exact Hc.
+Qed.
+
+(* ---------- the arrays of the word-id table ---------- *)
+
+Lemma homographs_ext : forall (p q : entry -> bool) es s, (forall e, p e = q e) -> homographs p es s = homographs q es s.
+Proof.
+  intros p q es s E. unfold homographs. f_equal. f_equal. apply filter_ext. intros e. rewrite E. reflexivity.
+Qed.
+
+Lemma indexed_is_nonneg_left : forall e, indexed F e = (0 <=? e_left e).
+Proof.
+  intros e. destruct (indexed F e) eqn:A; symmetry.
+  - apply Z.leb_le. apply indexed_iff. exact A.
+  - apply Z.leb_gt. destruct (Z_lt_ge_dec (e_left e) 0) as [L|G]; [exact L|].
+    assert (indexed F e = true) as B by (apply indexed_iff; lia). congruence.
+Qed.
+
+(* a list of entries that passes the length guard of the word-id table has at most 127 indexed entries per surface *)
+Lemma index_err_false_sound : forall es nl nr st user nsys, index_err F es = false ->
+  index_lists_ok (mkDict nl nr st user nsys es) = true.
+Proof.
+  intros es nl nr st user nsys H. destruct bfacts_parts as (_ & _ & _ & _ & _ & _ & _ & _ & _ & _ & _ & _ & _ & _ & _ & _ & Ck & Hlen).
+  unfold index_err in H. rewrite Ck in H. cbn [andb] in H.
+  unfold index_lists_ok. cbn [d_entries]. apply forallb_forall. intros e Hin.
+  destruct (0 <=? e_left e) eqn:E; [|reflexivity].
+  apply Z.leb_le. rewrite <- (homographs_ext (indexed F) _ es (e_surface e) indexed_is_nonneg_left).
+  apply Hlen. destruct (fires (b_index_len F) 0 0 (homographs (indexed F) es (e_surface e))) eqn:Fi; [|reflexivity].
+  exfalso. assert (existsb (fun e0 => indexed F e0 && fires (b_index_len F) 0 0 (homographs (indexed F) es (e_surface e0))) es = true) as X.
+  { apply existsb_exists. exists e. split; [exact Hin|]. rewrite indexed_is_nonneg_left, E, Fi. reflexivity. }
+  congruence.
+Qed.
+
+Theorem build_index_ok : forall inp d, build_with F inp = Ok d -> index_lists_ok d = true.
+Proof.
+  intros inp d H. unfold build_with in H.
+  destruct (match i_base inp with
+            | SystemDic m => match conn_read F m with Ok c => Ok (c_nl c, c_nr c, c_stores c, false, 0) | Err => Err | Panic => Panic end
+            | UserDic a b n => Ok (a, b, [], true, n)
+            end) as [[[[[nl nr] st] user] nsys]| |]; try discriminate.
+  destruct (parse_records F (i_recs inp)) as [es|]; [|discriminate].
+  destruct (forallb _ es); [|discriminate]. destruct (index_err F es) eqn:Ei; [discriminate|].
+  destruct (existsb (indexed F) es); [|destruct (b_empty_trie_err F); discriminate].
+  destruct (existsb (fun e => indexed F e && e_surface_nul e) es); [discriminate|].
+  inversion H; subst. apply index_err_false_sound. exact Ei.
 Qed.
 
 End Sound.
